@@ -29,14 +29,11 @@ func (obr *observerRunner) UpdateTableState(tableInfo *pokertable.Table) error {
 
 	obr.tableInfo = tableInfo
 
-	if !obr.systemMode {
-		// Filtering private information for observer
-		switch tableInfo.State.Status {
-		case pokertable.TableStateStatus_TableGamePlaying:
-			fallthrough
-		case pokertable.TableStateStatus_TableGameSettled:
-			tableInfo.State.GameState.AsObserver()
-		}
+	if !obr.systemMode && tableInfo.State.GameState != nil {
+		// Filtering private information for observer: whenever a hand state is present, whatever
+		// the table status says (the first states of a hand are published while the status is still
+		// table_game_opened, and a pause / close request can change the status in the middle of a hand)
+		tableInfo.State.GameState.AsObserver()
 	}
 
 	// Emit event
